@@ -145,6 +145,12 @@ def handleNz (args : List String) : String :=
       let some g := parseCArr? g | return "bad-op"
       if g.size ≠ din * dout * r then return "bad-op"
       return outMat din din (choiPT din dout r (mat g r))
+  | ["f2", nz, no, d] => Id.run do
+      if (nz ≠ "0" && nz ≠ "1") || (no ≠ "0" && no ≠ "1") then return "bad-op"
+      let some draws := (d.splitOn "|").mapM parseNatList? | return "bad-op"
+      match f2Result (nz == "1") (no == "1") draws with
+      | none => return "all-draws-rejected"
+      | some (r, k) => return s!"{natListStr r} {k}"
   | ["adj", n, d] => Id.run do
       let some n := n.toNat? | return "bad-op"
       let some d := parseNatList? d | return "bad-op"
